@@ -301,6 +301,133 @@ func TestC32_PendingHandshake(t *testing.T) {
 	})
 }
 
+// Lighthouse triggers. Node a statically knows b at an address the network never lets it reach, and
+// asks the lighthouse as well. b has advertised one more address to the lighthouse, so the answer
+// brings a remote a has not tried yet - and the network delivers that answer late, at a generated
+// instant of the retry schedule, the gap after the last attempt included. A lighthouse answer may
+// add a transmission round or burn one (both count as attempts upstream), so the exact schedule is
+// not asserted here; what must hold for every delivery instant: the handshake is never transmitted
+// in more rounds than handshakes.retries, and once the schedule has run out nothing is pending.
+func TestC32_LighthouseTrigger(t *testing.T) {
+	nsSetT(t)
+	vk.Check(t, 400, func(rt *rapid.T) {
+		interval := time.Duration(rapid.SampledFrom([]int{25, 100, 250, 1000}).Draw(rt, "intervalMs")) * time.Millisecond
+		retries := rapid.IntRange(1, 8).Draw(rt, "retries")
+		var labels []string
+		rounds, lateReplies := 0, 0
+		nsBubble(rt, func(rt *rapid.T, s *nsSim) {
+			w := nsGenWorld(rt, s, nsWorldOpts{minHosts: 2, maxHosts: 2, lighthouse: 1, staticAll: true, extra: func(sp *nsNodeSpec, cfg nsM) {
+				if sp.name == "h0" {
+					cfg["handshakes"] = nsM{"try_interval": interval.String(), "retries": retries}
+				}
+			}})
+			w.pid = "C32"
+			h := &nsHist{rt: rt, w: w, delivered: map[int]map[int]bool{}, stats: map[string]int{}}
+			var lh, a, b *nsNode
+			var ai, bi int
+			for i, sp := range w.specs {
+				switch sp.name {
+				case "lh":
+					lh = w.nodes[i]
+				case "h0":
+					a, ai = w.nodes[i], i
+				case "h1":
+					b, bi = w.nodes[i], i
+				}
+			}
+			if lh == nil || a == nil || b == nil {
+				rt.Fatalf("harness: world without lh/h0/h1: %s", w.describe())
+			}
+			// b advertises its real address and one nobody listens on
+			real, ghost := w.specs[bi].udp.Addr(), netip.AddrFrom4([4]byte{10, 0, 0, 199})
+			b.ctrl.SetLocalAddrsFn(func(*LocalAllowList) []netip.Addr { return []netip.Addr{real, ghost} })
+			w.startAll(rt)
+			addrA, addrB := w.commonAddr(bi, ai), w.commonAddr(ai, bi)
+			// both hosts reach the lighthouse and b's report arrives there
+			h.runFor(12*time.Second, 250*time.Millisecond)
+			if len(lh.allTunnels()) < 2 {
+				labels = append(labels, "lighthouse-not-reached")
+				return
+			}
+			pre := len(a.allTunnels())
+			s.injectTun(a, nsUDP(addrA, addrB, 20000, 443, []byte("VERIFTAG-100000-0-1|lh-trigger")))
+			// total schedule: attempts at 0, i, i+2i, ... and the final expiry retries*interval after the last
+			total := time.Duration(0)
+			for j := 1; j <= retries; j++ {
+				total += time.Duration(j) * interval
+			}
+			releaseAt := time.Duration(rapid.Float64Range(0, 1.05).Draw(rt, "releaseAt") * float64(total))
+			if rapid.IntRange(0, 2).Draw(rt, "lastGap") == 0 {
+				// inside the gap after the last attempt
+				lastStart := total - time.Duration(retries)*interval
+				releaseAt = lastStart + time.Duration(rapid.Float64Range(0.05, 0.95).Draw(rt, "lastGapAt")*float64(time.Duration(retries)*interval))
+			}
+			var held []*nsPacket
+			released := false
+			seenAt := map[time.Duration]bool{}
+			step := interval / 4
+			for el := time.Duration(0); el < total+time.Duration(retries+4)*interval+time.Second; el += step {
+				s.settle()
+				if !released && el >= releaseAt {
+					released = true
+					for _, p := range held {
+						h.deliverPkt(p)
+					}
+					lateReplies = len(held)
+					held = nil
+					s.settle()
+				}
+				for _, p := range s.takeInflight() {
+					hd, ok := nsHeaderOf(p.Data)
+					if !ok {
+						continue
+					}
+					toB := p.To.Addr() == real || p.To.Addr() == ghost
+					if p.Src == a.idx && toB {
+						if hd.Type == header.Handshake && hd.MessageCounter == 1 {
+							seenAt[p.At] = true
+						}
+						continue // the network never lets a reach b
+					}
+					if p.Src == b.idx && p.To == w.specs[ai].udp {
+						continue // nor b reach a
+					}
+					if p.Src == lh.idx && p.To == w.specs[ai].udp && !released && hd.Type == header.LightHouse {
+						held = append(held, p)
+						continue
+					}
+					h.deliverPkt(p)
+				}
+				time.Sleep(step)
+			}
+			rounds = len(seenAt)
+			desc := fmt.Sprintf("interval=%v retries=%d lighthouse answers (%d) released %v after the first attempt; rounds at %v\n%s", interval, retries, lateReplies, releaseAt, seenAt, w.describe())
+			if len(a.allTunnels()) > pre {
+				rt.Fatalf("harness: a reached b although the path is cut\n%s", desc)
+			}
+			if rounds > retries {
+				rt.Fatalf("the first handshake message was transmitted in %d rounds, handshakes.retries is %d\n%s", rounds, retries, desc)
+			}
+			hs := a.ctrl.f.handshakeManager
+			hs.RLock()
+			_, stillPending := hs.vpnIps[addrB]
+			hs.RUnlock()
+			if stillPending {
+				rt.Fatalf("the handshake to %v is still pending after its whole retry schedule\n%s", addrB, desc)
+			}
+			w.checkPending(rt)
+			if lateReplies > 0 {
+				labels = append(labels, "lighthouse-answer-delivered-late")
+				if releaseAt > total-time.Duration(retries)*interval {
+					labels = append(labels, "lighthouse-answer-after-last-attempt")
+				}
+			}
+			labels = append(labels, fmt.Sprintf("rounds-vs-retries:%d", rounds-retries))
+		})
+		vk.Case("C32", fmt.Sprintf("lh/%v/%d/%d/%d", interval, retries, rounds, lateReplies), lateReplies > 0 && rounds > 0, labels...)
+	})
+}
+
 func contains(l []string, s string) bool {
 	for _, x := range l {
 		if x == s {
